@@ -67,7 +67,7 @@ var templateNames = func() []string {
 }()
 
 var behaviours = []string{"answer", "delay", "drop", "sever-before", "sever-after", "mis-reqid", "mis-upalias", "mis-downalias", "mis-source", "mis-callid", "mis-reply",
-	"replace-reqid", "replace-upalias", "replace-source", "replace-callid", "withhold-acks", "sever-outage", "delay-late"}
+	"replace-reqid", "replace-upalias", "replace-source", "replace-callid", "withhold-acks", "sever-outage", "delay-late", "sever-slow-resume"}
 
 // Fault is one behaviour applied at one inbound message position.
 type Fault struct {
@@ -139,7 +139,20 @@ func execute(c Case, faults []Fault) *outcome {
 	var refuse atomic.Bool
 	w.FailDial = func(int) bool { return refuse.Load() }
 	b.OnChunk = nil
+	var slowResume atomic.Bool // sever-slow-resume: resume requests on later connections are answered 150 ms late
 	b.Hook = func(inc *sim.Inc, e *sim.Entry) sim.Verdict {
+		if inc.Index != 0 && slowResume.Load() {
+			switch e.Msg.(type) {
+			case *message.UpstreamResumeRequest, *message.DownstreamResumeRequest:
+				delayed.Add(1)
+				go func() {
+					defer delayed.Done()
+					time.Sleep(150 * time.Millisecond)
+					b.HandleDefault(inc, e)
+				}()
+				return sim.Handled
+			}
+		}
 		if inc.Index != 0 || e.Pos == 0 {
 			return sim.Default
 		}
@@ -199,6 +212,14 @@ func execute(c Case, faults []Fault) *outcome {
 				o.severs++
 				mu.Unlock()
 				return sim.SeverAfter
+			case "sever-slow-resume":
+				// the link is cut and, on the next connection, the streams' resume requests are answered 150 ms late: the program goes on
+				// (flush, close, open) while its streams are in the middle of their resume exchange
+				mu.Lock()
+				o.severs++
+				mu.Unlock()
+				slowResume.Store(true)
+				return sim.SeverBefore
 			case "sever-outage":
 				mu.Lock()
 				o.severs++
